@@ -122,6 +122,7 @@ func c31RunInner(in c31In) (V, Verdict) {
 		"frame-after-dropped-headless-run-skipped":      true,
 		"filled-head-advanced-past-filled-tail":         true,
 		"filled-window-wraps-ring-maxlate-above-21844":  true,
+		"frame-longer-than-maxlate-never-emitted":       true,
 	}
 	failKnown := func(sig, what string) {
 		if verdict.OK {
@@ -244,11 +245,28 @@ func c31RunInner(in c31In) (V, Verdict) {
 			}
 			return false
 		}
+		// largest displacement of a packet in the delivery (position among the pushes vs stream index)
+		maxDisp, nth := 0, 0
+		for _, op := range in.Ops {
+			if op.K == 0 {
+				if d := nth - op.G; d > maxDisp {
+					maxDisp = d
+				} else if -d > maxDisp {
+					maxDisp = -d
+				}
+				nth++
+			}
+		}
 		for j, fr := range in.Frames {
 			if got[fmt.Sprint(fr)] {
 				continue
 			}
 			switch {
+			case len(fr)+maxDisp > int(in.MaxLate):
+				// maxLate bounds the buffer: a frame that does not fit into it together with the
+				// reordering loses its first packet to the purge before its end has arrived
+				failKnown("frame-longer-than-maxlate-never-emitted",
+					fmt.Sprintf("loss-free stream: frame %v of %d packets (displacement up to %d) does not fit maxLate %d and is never emitted", fr, len(fr), maxDisp, in.MaxLate))
 			case hasBelow(fr):
 				failKnown("packet-below-first-pushed-seq-never-emitted",
 					fmt.Sprintf("loss-free stream, first pushed packet is stream index %d; frame %v (complete, delivered) never emitted", firstG, fr))
@@ -955,7 +973,15 @@ func c31Corpus() []c31In {
 	}
 	w12.Ops = append(w12.Ops, pop, c31Push(18, 2, 7000, 3), c31Push(19, 65535, 8000, 3), dupOf(19, 65535, 8000, 3), pop, pop)
 	w12.Frames = append(w12.Frames, []int{18}, []int{19})
-	return []c31In{w1, w2, w3, w4, w5, w6, w7, w8, w9, w10, w11, w12}
+	// 13. a frame longer than maxLate: six packets in order, maxLate 4, Pop after every Push
+	w13 := base("witness-frame-longer-than-maxlate", 4)
+	w13.Complete = true
+	w13.Frames = [][]int{{0, 1, 2, 3, 4, 5}, {6}}
+	for g := 0; g < 6; g++ {
+		w13.Ops = append(w13.Ops, c31Push(g, uint16(10+g), 1000, fl6(g)), pop)
+	}
+	w13.Ops = append(w13.Ops, c31Push(6, 16, 2000, 3), pop, fl, pop, pop)
+	return []c31In{w1, w2, w3, w4, w5, w6, w7, w8, w9, w10, w11, w12, w13}
 }
 
 func c31Shrink(in c31In) []c31In {
